@@ -44,6 +44,8 @@ def report(rep, st, prop):
 
 def run(tier, seed, replay=None):
     rep = vlib.Report(PROP, tier, seed)
+    import os
+    os.environ["VERIF_TIER_NOW"] = tier
     rep.assumptions = ["the visiting order of the rows watching a variable (an unordered_set of pointers) is fixed to ascending basic variable in the compared build (hook PSTLAB_ORATIO_VERIF_ORDERED); the algebraic theorems and the oracles do not depend on that order, and the end-to-end checks run without the ordering hook",
                        "`long` arithmetic is modelled as unbounded; value listeners are not modelled",
                        "relations and new variables are requested at root level (documented precondition); bounds set from outside are followed by propagate() with the reason literal at the current level (what the executor does)"]
